@@ -18,7 +18,8 @@ META = {
              'converse by identity); ill-formed variants (unknown super asset / association end / field / step target / '
              'variable / subtype) must raise; for random models every attack-graph edge must be predicted by a '
              'language-graph link; non-trivial = language has >= 1 association and >= 1 inheritance link; '
-             'distinct = digest(spec, model)'),
+             'distinct = digest(spec, model)'
+             '; added strata: asset names that are prefixes of one another, one field name at both ends, ill-formed kinds inside variable bodies, and after every reported error the specification is repaired and the SAME graph regenerated; interference layer'),
     'assumptions': ['reference typing in mtv/ref_sem.py', '"reported as errors" = constructing the LanguageGraph raises an Exception (S9)'],
     'shards': {'quick': 8, 'thorough': 16},
     'quotas': {
